@@ -43,6 +43,8 @@ func (r *recorder) take() []myraft.Message {
 }
 
 type peerCase struct {
+	syncs    atomic.Int64 // writes to *.wal files seen so far (one per flushed storage call)
+	failFrom atomic.Int64 // when > 0: the failFrom-th and later *.wal writes fail
 	dir      string
 	dirs     []string
 	fail     atomic.Bool
@@ -57,7 +59,11 @@ type peerCase struct {
 	lastTerm uint64
 }
 
-func (c *peerCase) start(dir string) error {
+func (c *peerCase) start(dir string) error { return c.startB(dir, true) }
+
+// startB opens WAL + manifest + peer; bootstrap=false leaves the fresh peer unconfigured (the
+// window between transport registration and Bootstrap, in which messages can already arrive).
+func (c *peerCase) startB(dir string, bootstrap bool) error {
 	if err := wal.VerifyDir(dir, nil); err != nil {
 		return err
 	}
@@ -83,8 +89,10 @@ func (c *peerCase) start(dir string) error {
 		m.Close()
 		return err
 	}
-	if err := p.Bootstrap([]myraft.Peer{{ID: 1}, {ID: 2}, {ID: 3}}); err != nil {
-		return err
+	if bootstrap {
+		if err := p.Bootstrap([]myraft.Peer{{ID: 1}, {ID: 2}, {ID: 3}}); err != nil {
+			return err
+		}
 	}
 	c.dir, c.wal, c.man, c.p = dir, w, m, p
 	return nil
@@ -131,7 +139,17 @@ func (c *peerCase) crash() string {
 	c.fail.Store(false)
 	c.stop()
 	sent := c.rec.take()
-	if err := c.start(img); err != nil {
+	c.failFrom.Store(0)
+	var perr any
+	var err2 error
+	func() {
+		defer func() { perr = recover() }()
+		err2 = c.start(img)
+	}()
+	if perr != nil {
+		return "crash=panic"
+	}
+	if err2 != nil {
 		return "crash=err"
 	}
 	hs, last, lastTerm, err := probe(c.wal, c.man)
@@ -197,6 +215,12 @@ func execPeer(ops []string) []string {
 		if c.fail.Load() && (op == vfs.OpFileWrite || op == vfs.OpFileSync) && strings.HasSuffix(path, ".wal") {
 			return fmt.Errorf("injected WAL write failure")
 		}
+		if op == vfs.OpFileWrite && strings.HasSuffix(path, ".wal") {
+			n := c.syncs.Add(1)
+			if f := c.failFrom.Load(); f > 0 && n >= f {
+				return fmt.Errorf("injected WAL write failure")
+			}
+		}
 		return nil
 	})
 	defer func() {
@@ -205,7 +229,8 @@ func execPeer(ops []string) []string {
 			os.RemoveAll(d)
 		}
 	}()
-	if err := c.start(root); err != nil {
+	early := len(ops) > 0 && (strings.HasPrefix(ops[0], "p.early") || strings.HasPrefix(ops[0], "p.bootcrash"))
+	if err := c.startB(root, !early); err != nil {
 		panic(fmt.Sprintf("peer start: %v", err))
 	}
 	hs, last, lastTerm, err := probe(c.wal, c.man)
@@ -235,6 +260,23 @@ func execPeer(ops []string) []string {
 				}
 			}()
 			switch t[0] {
+			case "p.bootcrash":
+				// the storage fails in the middle of the very first (bootstrap) Ready: the first
+				// storage call of handleReady is durable, the second one is not; then the process
+				// crashes and restarts (NewPeer + Bootstrap)
+				c.failFrom.Store(c.syncs.Load() + 2)
+				err := c.p.Bootstrap([]myraft.Peer{{ID: 1}, {ID: 2}, {ID: 3}})
+				r := c.crash()
+				out[i] = r + " step=" + stepRes(err)
+				if !strings.HasPrefix(r, "crash=ok") {
+					dead = true
+				}
+			case "p.early":
+				// a vote request reaches the peer before it is bootstrapped: the grant persists a
+				// hard state although the log is still empty; the restart that follows runs
+				// NewPeer + Bootstrap(peers), which must not reset that hard state
+				c.term += 4
+				out[i] = stepRes(c.vote(u(t[1])))
 			case "p.vote":
 				out[i] = stepRes(c.vote(u(t[1])))
 			case "p.app":
@@ -268,6 +310,11 @@ func execPeer(ops []string) []string {
 func genPeer(r *hlib.Rand) []string {
 	n := 2 + r.Intn(7)
 	var ops []string
+	if r.Chance(30) {
+		ops = append(ops, fmt.Sprintf("p.early %d", 2+r.Intn(2)), "p.crash")
+	} else if r.Chance(10) {
+		return []string{"p.bootcrash"}
+	}
 	for i := 0; i < n; i++ {
 		switch x := r.Intn(100); {
 		case x < 35:
